@@ -34,7 +34,7 @@ type c07Case struct {
 func init() {
 	engine.Register(&engine.Check{
 		ID: "C07", Level: "exploration",
-		Rule:        "round trip: universe U in XY, XYZ, XYM, XYZM, Layout(5), Layout(7) + collections (mixed layouts, empty members, nesting <=3) + a float lattice in points: Marshal output read by an independent RFC 7946 reader (same type, nesting, numbers) and by Unmarshal / Encode+Decode (equal to the model with the format carve-outs COMPUTED from the model: layout from the first position, empty => XY, arity mismatch => error); Features: id {absent,'a','0','1e3'} (plus ~300 string ids: every ASCII character alone and embedded, 15 characters beyond ASCII up to U+10FFFF, JSON look-alikes) x bbox {absent,XY,XYZ} x properties {nil,{},nested} x geometry {nil, each kind}; FeatureCollections of 0..2 features x bbox. Totality: grammar-directed enumeration of documents (type x coordinates menu x geometries menu; Feature id x bbox x geometry x properties menus; FeatureCollection menus) plus every prefix, every single-byte deletion and every single-byte substitution (12-byte structural menu) of valid documents, and every JSON value of nesting depth <=3 (+1 wrapping level) over arrays of 0..2 elements with leaves {1,null,\"a\"} (thorough: also 2.5 and {}) as the coordinates of every geometry type, decoded as geometry, Feature and FeatureCollection: no panic; error or well-formed result. distinct_nontrivial = distinct documents / geometries with at least one position or one member Also: a lattice of ~1100 numeric Feature ids (+-2^k and neighbours to 2^70, powers of ten to 1e22, integral values between 2^63 and 1e19) and two-step histories in which the document returned by Feature.MarshalJSON is kept while a shorter, an equally long and a longer document are marshalled.",
+		Rule:        "round trip: universe U in XY, XYZ, XYM, XYZM, Layout(5), Layout(7) + collections (mixed layouts, empty members, nesting <=3) + a float lattice in points: Marshal output read by an independent RFC 7946 reader (same type, nesting, numbers) and by Unmarshal / Encode+Decode (equal to the model with the format carve-outs COMPUTED from the model: layout from the first position, empty => XY, arity mismatch => error); Features: id {absent,'a','0','1e3'} (plus ~300 string ids: every ASCII character alone and embedded, 15 characters beyond ASCII up to U+10FFFF, JSON look-alikes) x bbox {absent, XY, XYZ, antimeridian-crossing XY (west > east), XYZ with a reversed third axis, degenerate} x properties {nil,{},nested} x geometry {nil, each kind}; FeatureCollections of 0..2 features x bbox. Totality: grammar-directed enumeration of documents (type x coordinates menu x geometries menu; Feature id x bbox x geometry x properties menus; FeatureCollection menus) plus every prefix, every single-byte deletion and every single-byte substitution (12-byte structural menu) of valid documents, and every JSON value of nesting depth <=3 (+1 wrapping level) over arrays of 0..2 elements with leaves {1,null,\"a\"} (thorough: also 2.5 and {}) as the coordinates of every geometry type, decoded as geometry, Feature and FeatureCollection: no panic; error or well-formed result. distinct_nontrivial = distinct documents / geometries with at least one position or one member Also: a lattice of ~1100 numeric Feature ids (+-2^k and neighbours to 2^70, powers of ten to 1e22, integral values between 2^63 and 1e19) and two-step histories in which the document returned by Feature.MarshalJSON is kept while a shorter, an equally long and a longer document are marshalled.",
 		Run:         c07Run,
 		Replay:      func(c *engine.Ctx, kind string, raw json.RawMessage) { c07Exec(c, decodeCase[c07Case](raw)) },
 		Assumptions: []string{"finite ordinates; geojson.DefaultLayout at its default XY; encoding/json and ref.ParseGeoJSON trusted"},
@@ -126,6 +126,14 @@ func c07BBox(k int) *geom.Bounds {
 		return geom.NewBounds(geom.XY).Set(-1, -2, 3, 4)
 	case 2:
 		return geom.NewBounds(geom.XYZ).Set(-1, -2, -3, 4, 5, 6)
+	case 3:
+		// RFC 7946 5.2: a box that crosses the antimeridian has its west edge (177) east of its
+		// east edge (-178); "4 numbers" is all the property says about a bbox
+		return geom.NewBounds(geom.XY).Set(177, -20, -178, -16)
+	case 4:
+		return geom.NewBounds(geom.XYZ).Set(1, 2, 9, 3, 4, 5)
+	case 5:
+		return geom.NewBounds(geom.XY).Set(0, 0, 0, 0)
 	}
 	return nil
 }
@@ -510,7 +518,7 @@ func c07Run(c *engine.Ctx) {
 		ref.NewCollection(geom.NoLayout, ref.NewPoint(geom.XY, true, ref.Counter()), ref.NewCollection(geom.NoLayout)),
 		ref.NewPoint(geom.XY, false, ref.Counter())}
 	for _, id := range []string{"", "a", "0", "1e3"} {
-		for bb := 0; bb < 3; bb++ {
+		for bb := 0; bb < 6; bb++ {
 			for pr := 0; pr < 3; pr++ {
 				for _, g := range geoms {
 					c07Exec(c, c07Case{Mode: "feature", G: g, ID: id, BBox: bb, Props: pr})
